@@ -1,0 +1,29 @@
+//go:build verif
+
+// Contracts for govc (contract-based deductive verification); comment-only, compiled only with -tags verif.
+package lastgersync
+
+// ---- the PP downloader (C16): every L2 block from the first one requested onwards is scanned for GER events, however
+// far the head has moved between two polls. scanNext is the first block not yet scanned, scanGap records whether a
+// scan ever started beyond it (ghost observers on the two calls the loop makes).
+//@ ghost var scanNext int
+//@ ghost var scanGap bool
+
+//@ extern (*github.com/agglayer/aggkit/sync.EVMDownloaderImplementation).WaitForNewBlocks@lastgersync.(*downloaderPP).Download (d, ctx, latestSyncedBlock)
+//@   modifies nothing
+//@   ensures result >= latestSyncedBlock && result < 18446744073709551615
+
+//@ extern (*github.com/agglayer/aggkit/sync.EVMDownloaderImplementation).GetEventsByBlockRange@lastgersync.(*downloaderPP).Download (d, ctx, fromBlock, toBlock)
+//@   modifies scanNext, scanGap
+//@   ensures scanGap == (old(scanGap) || fromBlock > old(scanNext))
+//@   ensures scanNext == ite(toBlock + 1 > old(scanNext) && fromBlock <= old(scanNext), toBlock + 1, old(scanNext))
+//@   ensures forall(k, 0, len(result), result[k] != nil)
+
+//@ func (d *downloaderPP) Download
+//@   props C16
+//@   requires d != nil && d.EVMDownloaderImplementation != nil
+//@   requires scanNext == fromBlock && !scanGap
+//@   modifies heap, scanNext, scanGap
+//@   ensures[no-block-skipped] !scanGap
+//@   loop 0 invariant !scanGap && scanNext == fromBlock && d != nil && d.EVMDownloaderImplementation != nil
+//@   loop 1 invariant !scanGap && d != nil && d.EVMDownloaderImplementation != nil && 0 <= rangeindex + 1
